@@ -1,14 +1,14 @@
 SPECIFICATION Spec
-CONSTANTS MaxReconnects = 2
+CONSTANTS MaxReconnects = 1
           MaxCuts = 1
-          MaxProbes = 1
-          MaxPends = 1
+          MaxProbes = 0
+          MaxPends = 0
           MaxRaces = 1
-          MaxTicks = 1
-          MaxFnfs = 0
-          MaxBlocks = 0
-          Firsts = {"close"}
-          Js = {0, 1, 2, 3, 4, 5, 6, 7, 8, 9, 10, 11, 12, 14}
+          MaxTicks = 0
+          MaxFnfs = 2
+          MaxBlocks = 1
+          Firsts = {"close", "reconnect"}
+          Js = {0, 2, 4, 7}
 INVARIANT TypeOK
 INVARIANT CloseOncePerConnection
 INVARIANT OldTransportsClosed
